@@ -4,6 +4,8 @@
 # the harness is rebuilt with its /repo paths rewritten into .cache/alt); /repo itself is not touched.
 # The evidence files of the unchanged tree are saved and restored.
 set -u
+# one seeded run / confirmation at a time (they share scratch worktrees)
+exec 9>/tmp/seeded.lock; flock 9
 D=$(realpath $1); shift
 WT=/tmp/seed-wt
 cd /verif
